@@ -13,7 +13,7 @@ import vlib
 from dkg import tlc_cases
 
 SPEC = os.path.join(vlib.SPECS, 'hash')
-INV = ['BufferBounded', 'BufferAccounts', 'NilOnlyFresh', 'FastPathOnlyWhole']
+INV = ['BufferBounded', 'BufferAccounts', 'NilOnlyFresh', 'FastPathOnlyWhole', 'DirtyOnlyFinalised']
 
 
 def lens_for(rate):
